@@ -922,3 +922,7 @@ mod test {
         assert_eq!(cache.put(4, 3), PutResult::Evicted { key: 1, value: 1 });
     }
 }
+
+#[cfg(feature = "verif-hooks")]
+#[path = "/verif/kani/hooks_wtinylfu.rs"]
+mod verif_hooks;
